@@ -58,6 +58,8 @@ pub struct Compiler<'a> {
     scope_depth: Vec<i32>,
     current_index: CardIndex,
     function_id: usize,
+    /// number of closures compiled so far, makes closure labels unique
+    closure_count: u64,
 }
 
 #[derive(Debug, Clone, Copy)]
@@ -121,6 +123,7 @@ impl<'a> Compiler<'a> {
             current_index: CardIndex::default(),
             current_imports: Default::default(),
             function_id: 0,
+            closure_count: 0,
         }
     }
 
@@ -145,6 +148,7 @@ impl<'a> Compiler<'a> {
         }
         self.program = CaoCompiledProgram::default();
         self.next_var = VariableId(0);
+        self.closure_count = 0;
         self.compile_stage_1(compilation_unit)?;
         self.compile_stage_2(compilation_unit)?;
 
@@ -777,8 +781,12 @@ impl<'a> Compiler<'a> {
 
                 self.compile_begin();
                 const CLOSURE_MASK: u64 = 0xEFEFEFEF;
-                let function_handle =
-                    self.current_index.as_handle() + Handle::from_u64(CLOSURE_MASK);
+                // the card index is only unique within a module (function numbers restart in
+                // every module), so number the closures of the whole program as well
+                self.closure_count += 1;
+                let function_handle = self.current_index.as_handle()
+                    + Handle::from_u64(CLOSURE_MASK)
+                    + Handle::from_u64(self.closure_count << 32);
                 let arity = embedded_function.arguments.len() as u32;
                 let handle = u32::try_from(self.program.bytecode.len())
                     .expect("bytecode length to fit into 32 bits");
